@@ -1,10 +1,28 @@
-//! idmsim engine. See /verif/DESIGN.md section 2 and /verif/harness/AGENT_GUIDE.md.
+//! puresim2: enumeration / random differential testing of pure components against reference
+//! models (second half of the `puresim` engine of /verif/DESIGN.md section 2).
+#[macro_use]
+extern crate kanidmd_lib;
+
+mod c21;
+mod capem;
+mod c28;
+mod c29;
+mod c30;
+mod c35;
+mod c45;
+mod pyref;
 
 fn main() {
     let args = kvcore::parse_args();
     match args.prop.as_str() {
+        "C21" => c21::run(args),
+        "C28" => c28::run(args),
+        "C29" => c29::run(args),
+        "C30" => c30::run(args),
+        "C35" => c35::run(args),
+        "C45" => c45::run(args),
         p => {
-            println!("INCONCLUSIVE property={p} reason=idmsim does not serve this property yet");
+            println!("INCONCLUSIVE property={p} reason=puresim2 does not serve this property");
             std::process::exit(2);
         }
     }
